@@ -270,6 +270,9 @@ func (ex *Exec) applyContract(s *State, instr ssa.Instruction, f *ssa.Function, 
 		}
 		ex.oblige(s, name, "pre", instr.Pos(), r.Tags, goal, "precondition of "+con.Key+": "+r.Src)
 	}
+	// invariants of timer callbacks: the callee preserves them (its own
+	// `stable` obligations), so the caller may rely on that
+	stabBefore := ex.stabSnapshot(s)
 	// snapshot, havoc assigns
 	snap := make(map[string]Term, len(s.Heap))
 	for k, v := range s.Heap {
@@ -349,6 +352,7 @@ func (ex *Exec) applyContract(s *State, instr ssa.Instruction, f *ssa.Function, 
 	default:
 		rv = TupleV(results)
 	}
+	ex.stabAssumePreserved(s, stabBefore)
 	ex.finishCall(s, instr, res, stay, rv)
 	return nil
 }
@@ -373,6 +377,7 @@ func (ex *Exec) checkPost(s *State, ret *ssa.Return, results []Val) {
 	if !ex.con.DeadReturns[retOrd] {
 		ex.cover(s, fmt.Sprintf("%s#cover.return.%d", ex.key, retOrd), ex.con.AllTags(), ret.Pos())
 	}
+	ex.stabCheck(s, ret.Pos(), "at return")
 	for _, e := range ex.con.Ensures {
 		if ex.mentionsUnboundSiteLet(s, e.Expr) {
 			// the clause talks about a value captured at a call site that
@@ -638,6 +643,7 @@ func (ex *Exec) loopEnter(s *State, li *loopInfo, from *ssa.BasicBlock) {
 		ex.oblige(s, fmt.Sprintf("%s#inv.init.%d.%s", ex.key, li.Ordinal, inv.Label), "inv", li.Header.Instrs[0].Pos(), inv.Tags,
 			ex.evalBool(env, inv.Expr), inv.Src)
 	}
+	ex.stabCheck(s, li.Header.Instrs[0].Pos(), "on entering a loop")
 	// discover what the loop modifies: dry run of the body
 	ex.dryYield = false
 	ex.dryNested = false
@@ -698,6 +704,7 @@ func (ex *Exec) loopEnter(s *State, li *loopInfo, from *ssa.BasicBlock) {
 		}
 		s.assume(ex.evalBool(env, inv.Expr))
 	}
+	ex.stabRebase(s)
 }
 
 func (ex *Exec) loopBack(s *State, li *loopInfo, from *ssa.BasicBlock) {
@@ -748,6 +755,7 @@ func (ex *Exec) loopBack(s *State, li *loopInfo, from *ssa.BasicBlock) {
 		return
 	}
 	ex.bindPhis(s, li.Header, from)
+	ex.stabCheck(s, li.Header.Instrs[0].Pos(), "by a loop iteration")
 	env := ex.loopEnv(s, li.Header)
 	for _, inv := range ex.con.LoopInv[li.Ordinal] {
 		if ex.mentionsUnboundSiteLet(s, inv.Expr) {
